@@ -190,13 +190,15 @@ def classify(case):
             labels.append('cut_in_fixed_header')
     if len(case['msgs']) >= 4:
         labels.append('msgs>=4')
+    if off - p > 60000:
+        labels.append('stream>60KB')
     del data_len
     return nt, labels
 
 
 @st.composite
-def crlf_message(draw, depth):
-    m = draw(S.message(body_depth=depth))
+def crlf_message(draw, depth, big=False):
+    m = draw(S.message(body_depth=depth, big=big))
     k = draw(st.integers(0, 3))
     if k == 0:
         m['serial'] = draw(st.sampled_from([0x0a0d, 0x0d0a0000, 0x0d0a0d0a, 0x000a0d00]))
@@ -210,11 +212,13 @@ def crlf_message(draw, depth):
 @st.composite
 def random_case(draw, tier):
     n = draw(st.integers(1, 6))
-    msgs = [draw(crlf_message(2)) for _ in range(n)]
+    msgs = [draw(crlf_message(2, big=True)) for _ in range(n)]
     enc = [draw(st.booleans()) for _ in range(n)]
     setup = draw(st.sampled_from(['pre', 'server', 'client']))
     mode = draw(st.sampled_from(['cuts', 'cuts', 'one', 'bytewise', 'split_at_handshake']))
     case = {'setup': setup, 'msgs': msgs, 'enc': enc, 'mode': mode, 'cuts': []}
+    if mode == 'bytewise' and len(_full(case)) > 4000:
+        mode = case['mode'] = 'cuts'      # one byte per read is quadratic in the buffer: keep it for short streams
     if mode == 'cuts':
         L = len(_full(case))
         k = draw(st.integers(1, 8))
